@@ -5,6 +5,7 @@ extern crate alloc;
 use alloc::boxed::Box;
 pub struct Impl;
 pub struct Unimock;
+#[cfg(not(feature = "unimock"))]
 pub trait Sync {}
 pub trait AsRef<X> {}
 pub trait Borrow<X> {}
